@@ -778,15 +778,22 @@ def assembly_tie(c):
                 return
             continue
         spec, mod, hyp, code = m.group(1), m.group(2), m.group(3), ma.group(1)
+        user_types = op.startswith("judgeu ")
+        if user_types:
+            c.hist("assembly", "values through Validate<Type> functions")
         names = lambda x: set(x.split(":", 1)[1].split(",")) if ":" in x else set()
         c.hist("assembly-verdict", "%s/%s" % (spec.split(":")[0], code.split(":")[0]))
         c.count("asm/" + op[:200])
         inp = {"kind": "assembly", "line": op}
+        if "CALL-of-unknown" in code or "RUNAWAY" in code:
+            c.fail("assembly/call", "the emitted validation code calls a Validate function that is not generated, or recurses without end", input=inp, expected=spec, actual=code)
+            continue
         if "PANIC-nil-dereference" in code:
             c.fail("assembly/nil-dereference", "the emitted validation code dereferences a nil pointer on a well-typed value", input=inp, expected=spec, actual=code)
             continue
-        if code != mod:
-            # the reading of the emitted Go differs from the model's code on this value
+        if code != mod and not user_types:
+            # the reading of the emitted Go differs from the model's code on this value (with user types the model
+            # is the code of the attribute with its types inlined, which reports the same rules but is other code)
             differ.append((op, a, b))
         called_s, called_c = spec == "called", code == "called"
         if called_s != called_c:
